@@ -974,3 +974,96 @@ func runR129(c *Ctx) {
 		}
 	})
 }
+
+// ---- R131: a value of none of the handled dynamic types is an error ----
+
+func init() {
+	register(&Rule{ID: "R131", Name: "DEFAULT-ERRORS", Floor: 20,
+		Text: "in the column packages and in internal/io/sql, every function that returns an error and decodes an interface-typed parameter by comma-ok type assertions (a type switch over the function / comparator / argument union types) is explored along the paths on which every one of those assertions fails and the value is not nil: each return reached carries a non-nil error. A default clause that returns nil - or a fall-through that reports success - accepts a function or argument of an unsupported type silently instead of reporting it through Err (the column then comes back unchanged or the filter selects nothing)",
+		Run:  runR131})
+}
+
+func runR131(c *Ctx) {
+	p := c.P
+	pkgs := append([]string{"internal/io/sql"}, columnPkgs...)
+	for _, pkg := range pkgs {
+		for _, fn := range p.FuncsIn(pkg) {
+			if fn.Blocks == nil || errResultIndex(fn.Signature) < 0 {
+				continue
+			}
+			// interface-typed parameters that are type-asserted (directly, or after a normalising call)
+			switched := map[ssa.Value]bool{}
+			var asserts []*ssa.TypeAssert
+			eachInstr(fn, func(in ssa.Instruction) {
+				ta, ok := in.(*ssa.TypeAssert)
+				if !ok || !ta.CommaOk {
+					return
+				}
+				root := ta.X
+				if call, ok := root.(*ssa.Call); ok && len(call.Call.Args) == 1 {
+					root = call.Call.Args[0] // x = normalise(x)
+				}
+				if prm, ok := root.(*ssa.Parameter); ok {
+					if _, isIface := prm.Type().Underlying().(*types.Interface); isIface {
+						switched[ta.X] = true
+						asserts = append(asserts, ta)
+					}
+				}
+			})
+			if len(asserts) < 2 {
+				continue // a single assertion is a plain conversion with its own error, not a union decode
+			}
+			key := fname(fn) + "|unsupported dynamic type"
+			seen := map[*ssa.BasicBlock]bool{}
+			nRet, badRet := 0, ""
+			var walk func(b *ssa.BasicBlock)
+			walk = func(b *ssa.BasicBlock) {
+				if seen[b] {
+					return
+				}
+				seen[b] = true
+				last := b.Instrs[len(b.Instrs)-1]
+				switch t := last.(type) {
+				case *ssa.Return:
+					nRet++
+					if returnsNilError(t) {
+						badRet = p.instrPos(t)
+					}
+					return
+				case *ssa.If:
+					if ex, ok := t.Cond.(*ssa.Extract); ok && ex.Index == 1 {
+						if ta, ok := ex.Tuple.(*ssa.TypeAssert); ok && ta.CommaOk && switched[ta.X] {
+							walk(b.Succs[1])
+							return
+						}
+					}
+					// case nil: the value compared with nil - follow the `not nil` side
+					if cmp, ok := t.Cond.(*ssa.BinOp); ok && (cmp.Op == token.EQL || cmp.Op == token.NEQ) {
+						for _, side := range [][2]ssa.Value{{cmp.X, cmp.Y}, {cmp.Y, cmp.X}} {
+							if cst, ok := side[1].(*ssa.Const); ok && cst.IsNil() && switched[side[0]] {
+								if cmp.Op == token.EQL {
+									walk(b.Succs[1])
+								} else {
+									walk(b.Succs[0])
+								}
+								return
+							}
+						}
+					}
+				}
+				for _, sc := range b.Succs {
+					walk(sc)
+				}
+			}
+			walk(fn.Blocks[0])
+			switch {
+			case nRet == 0:
+				c.okTrivial(key, p.pos(fn.Pos()), "no return is reachable when every assertion fails")
+			case badRet != "":
+				c.bad(key, p.pos(fn.Pos()), "a value of none of the handled dynamic types reaches the return at "+badRet+", which reports success: an unsupported function or argument type is accepted silently")
+			default:
+				c.ok(key, p.pos(fn.Pos()), "a value of none of the handled types yields an error")
+			}
+		}
+	}
+}
